@@ -688,7 +688,106 @@ def rule_missing(model):
     return r
 
 
-RULES = [rule_formulas, rule_extremes, rule_median, rule_missing]
+FIRST_MATCH_CONTROL = '''
+class sv:
+    statistic_names = ('total', 'variance', 'variance-n')
+
+    def __getitem__(self, key):
+        suffix = key
+        for stat in self.statistic_names:
+            alias = stat.replace('-', '_') + '_'
+            if suffix.startswith(alias):
+                return self[stat + '-' + suffix[len(alias):]]
+        raise KeyError(key)
+'''
+
+
+def _first_match_loops(model, ci):
+    """(fi, loop, [alias per table entry]) for every loop over the class's
+    statistic table that selects an entry by a startswith test on an alias
+    computed from the loop variable."""
+    out = []
+    tab = ci.attrs.get('statistic_names')
+    if tab is None:
+        return out
+    try:
+        names = constfold.fold(tab, {})
+    except constfold.NotConstant:
+        return out
+    for fi in ci.methods.values():
+        for lp in own_nodes(fi.node):
+            if not (isinstance(lp, ast.For) and isinstance(
+                    lp.target, ast.Name) and 'statistic_names' in norm(
+                        lp.iter)):
+                continue
+            var = lp.target.id
+            tests = [c for c in ast.walk(lp) if isinstance(c, ast.Call)
+                     and isinstance(c.func, ast.Attribute)
+                     and c.func.attr == 'startswith' and len(c.args) == 1]
+            for t in tests:
+                a = t.args[0]
+                if isinstance(a, ast.Name):
+                    defs = [d for st in lp.body for d in ast.walk(st)
+                            if isinstance(d, ast.Assign) and any(
+                                isinstance(x, ast.Name) and x.id == a.id
+                                for x in d.targets)]
+                    if len(defs) != 1:
+                        continue
+                    a = defs[0].value
+                if not any(isinstance(x, ast.Name) and x.id == var
+                           for x in ast.walk(a)):
+                    continue
+                try:
+                    aliases = [constfold.fold(a, {}, {var: nm})
+                               for nm in names]
+                except constfold.NotConstant:
+                    continue
+                out.append((fi, lp, list(zip(names, aliases))))
+    return out
+
+
+def rule_first_match(model):
+    r = RuleResult('C16.R6', 'every statistic is reachable under every '
+                   'spelling: where a statistic is selected by the first '
+                   'table entry whose alias the requested name starts with, '
+                   'no alias is a prefix of a later one (variance_ would '
+                   'capture variance_n_...)')
+    from ..model import Model
+    cm = Model(sources={'src/DocumentTemplate/zz_firstmatch_control.py':
+                        FIRST_MATCH_CONTROL}, root=None)
+    cl = _first_match_loops(
+        cm, cm.modules['zz_firstmatch_control'].classes['sv'])
+    r.control('control: variance_ shadows variance_n_', bool(cl) and any(
+        b.startswith(a) for i, (_, a) in enumerate(cl[0][2])
+        for _, b in cl[0][2][i + 1:]))
+    ci = model.modules['DT_InSV'].classes.get('sequence_variables')
+    if ci is None or 'statistic_names' not in ci.attrs:
+        raise AnalysisError('C16.R6: sequence_variables.statistic_names '
+                            'not found')
+    try:
+        names = constfold.fold(ci.attrs['statistic_names'], {})
+    except constfold.NotConstant:
+        raise AnalysisError('C16.R6: statistic_names is not a constant '
+                            'table')
+    r.instance('DT_InSV:sequence_variables', 'statistic_names',
+               f'{len(names)} names')
+    for fi, lp, pairs in _first_match_loops(model, ci):
+        r.instance(fi.where, f'for {norm(lp.target)} in {norm(lp.iter)}',
+                   'first match by alias prefix')
+        for i, (na, a) in enumerate(pairs):
+            for nb, b in pairs[i + 1:]:
+                if b.startswith(a):
+                    r.finding(fi.where, f'{a!r} shadows {b!r}',
+                              f'the alias {a!r} of {na!r} is tried before '
+                              f'{b!r} and is a prefix of it: a request for '
+                              f'{nb}-x under this spelling is answered '
+                              f'with {na} of a field that does not exist '
+                              '(an empty value)', node=lp, ctx=fi)
+    return r
+
+
+RULES = [rule_formulas, rule_extremes, rule_median, rule_missing,
+         rule_first_match]
 EXPLANATION = (
     'Formula agreement over the domain of rational functions (canonical '
     'quotients of polynomials in S1, S2, n; sqrt uninterpreted): one loop '
